@@ -84,7 +84,7 @@ package component_definition
 //@ spec func SingleP(n *Property) bool = n.Type.Kind() != 23 && n.Type.Kind() != 17
 //@ spec func TargetType(n *Property) reflect.Type = ite(SingleP(n), n.Type, RElemType(n.Type))
 //@ spec func PointOK(n *Property) bool = n != nil && n.Field != nil && n.Field.Base != nil && n.Type != nil && n.Holder != nil && n.Holder.Meta != nil && n.Holder.Meta.Base != nil
-//@ spec func MetaOK(m *Meta) bool = m != nil && m.Base != nil && m.dependentSet != nil && m.Raw != nil && RTypeOf(m.Value) != nil
+//@ spec func MetaOK(m *Meta) bool = m != nil && m.Base != nil && m.dependentSet != nil && m.Raw != nil && RTypeOf(m.Value) != nil && m.Type != nil
 
 //@ func (*Meta).IsSelf
 //@ property C02
